@@ -530,6 +530,7 @@ func genC15(tier string, r *rng, emit func(string)) {
 	}
 	srcs := []src{{"rm", []int{5}}, {"rm", []int{2, 3}}, {"rm", []int{}}, {"cm", []int{2, 3}}, {"T", []int{3, 2}},
 		{"slice", []int{2, 2}}, {"rm", []int{1, 4}}, {"rm", []int{2, 1, 2}}}
+	negCtr := 0
 	predRound := func(dts []string, srcs []src, reps int) {
 		for _, dt := range dts {
 			preds := kPreds
@@ -540,6 +541,10 @@ func genC15(tier string, r *rng, emit func(string)) {
 				for _, s := range srcs {
 					for rep := 0; rep < reps; rep++ {
 						base := r.intn(4)
+						negCtr++
+						if negCtr%2 == 1 && (dt == "i" || dt == "i8" || dt == "i16" || dt == "i32" || dt == "i64" || dt == "f32" || dt == "f64") {
+							base = -r.rangeInt(1, 6) // negative elements and comparands (tolerances use |value|)
+						}
 						prog, idx := source(r, s.layout, s.sh, base)
 						n, _, ok := kWindow(dt, prog, idx)
 						if !ok {
